@@ -1,8 +1,103 @@
-(* C12 - property theorems (filled in as proofs land) *)
+(* C12 - Rust and Python back-ends are observably equivalent: property theorems.
+   Rust-side models: SV.C12.Rs* (kernel of rust/src/algorithms/*.rs composed with its adapter in
+   solvor/rust/adapters.py).  Python-side models: SV.C11 (floyd_warshall, bellman_ford), SV.C13 (kruskal),
+   SV.C14 (topological_sort_edges).  Every theorem quantifies over all valid inputs (node indices in range),
+   validity being the boolean predicate of the Python-side model (what the Python code accepts without ValueError). *)
 From Coq Require Import List ZArith Bool Arith.
-From SV Require Import C11.Paths C11.FloydWarshall C12.RsShortest.
+From SV Require Import C11.Paths C11.FloydWarshall C11.BellmanFord C13.Mst C14.Scc C14.SccSpec.
+From SV Require Import C11.Bfs C12.RsSearch.
+From SV Require Import C12.RsShortest C12.RsKruskal C12.RsScc C12.FwEquiv C12.BfEquiv C12.KruskalEquiv C12.TopoEquiv C12.BfsEquiv.
 Import ListNotations.
 
+(* (1) floyd_warshall: same status (UNBOUNDED rule included) and the same distance matrix, directed and undirected *)
+Theorem C12_fw : forall n edges directed, FW.valid_input n edges = true ->
+  RsFW.floyd_warshall n edges directed = FW.floyd_warshall n edges directed.
+Proof. exact fw_equiv. Qed.
+Print Assumptions C12_fw.
+
+(* (2) bellman_ford: same status, same distances, same path and objective, with and without target *)
+Theorem C12_bf : forall start edges n target, BF.valid_input start edges n target = true ->
+  RsBF.bellman_ford start edges n target = BF.bellman_ford start edges n target.
+Proof. exact bf_equiv. Qed.
+Print Assumptions C12_bf.
+
+(* (3) topological_sort_edges: both back-ends return valid topological orders of the same graph (Rust pops a stack,
+   Python a FIFO queue: the orders differ) or both report INFEASIBLE (a cycle exists); no fuel exhaustion *)
+Theorem C12_topo : forall n edges, evalidb n edges = true ->
+  exists out_rs out_py,
+    RsScc.topo_edges n edges = Some out_rs /\ Scc.topo_edges n edges = Some out_py /\
+    topo_spec (graph_of_edges n edges) (seq 0 n) out_rs /\
+    topo_spec (graph_of_edges n edges) (seq 0 n) out_py /\
+    (out_rs = None <-> out_py = None).
+Proof. exact topo_equiv. Qed.
+Print Assumptions C12_topo.
+
+(* (4) kruskal: same status, the same edge list and the same total weight (stronger than equal weight), for both
+   values of allow_forest; the union-find models never run out of fuel *)
+Theorem C12_kruskal_weight : forall n edges allow_forest, kruskal_valid n edges = true ->
+  RsKruskal.kruskal n edges allow_forest = RsKruskal.py_kruskal n edges allow_forest /\
+  exists o, RsKruskal.py_kruskal n edges allow_forest = Some o.
+Proof. exact kruskal_equiv. Qed.
+Print Assumptions C12_kruskal_weight.
+
+(* (5) bfs_edges.  Full statement (all targets): identical result, in particular the identical shortest path, for
+   graphs of at most 10^6 nodes.  The bound is needed: solvor.bfs.bfs() stops silently after max_iter = 1_000_000
+   iterations, the Rust kernel has no such cap, and on larger graphs the two back-ends DO differ (replayed on the
+   real code by the harness' scale probe).  Not finished: the case target = Some t needs, in addition to the
+   lock-step simulation proved in BfsEquiv.v, the agreement of the two path reconstructions (Rust walks the
+   predecessor array until it meets the source, Python walks the parent dict until a node without parent). *)
+Definition C12_bfs_full_statement : Prop :=
+  forall n edges source target, ES.valid_input n edges source target = true -> (Z.of_nat n <= 1000000)%Z ->
+  RsSearch.bfs_edges n edges source target = PyEdges.bfs_edges n edges source target /\
+  exists r, PyEdges.bfs_edges n edges source target = Some r.
+
+(* proved part: target = None - the same sorted list of reachable nodes, no fuel exhaustion *)
+Theorem C12_bfs_partial : forall n edges source,
+  ES.valid_input n edges source None = true -> (Z.of_nat n <= 1000000)%Z ->
+  RsSearch.bfs_edges n edges source None = PyEdges.bfs_edges n edges source None /\
+  exists l, PyEdges.bfs_edges n edges source None = Some (ES.Reach l).
+Proof. exact bfs_reach_equiv. Qed.
+Print Assumptions C12_bfs_partial.
+
+(* ---------------------------------------------------------------- non-vacuity *)
+(* the witness of the fixed adapter defect: undirected, anti-parallel arcs of different weight *)
 Example C12_fw_witness_example :
-  RsFW.floyd_warshall 2 [(0%nat, 1%nat, 5%Z); (1%nat, 0%nat, 2%Z)] false = FW.floyd_warshall 2 [(0%nat, 1%nat, 5%Z); (1%nat, 0%nat, 2%Z)] false.
-Proof. vm_compute. reflexivity. Qed.
+  FW.valid_input 2 [(0%nat, 1%nat, 5%Z); (1%nat, 0%nat, 2%Z)] = true /\
+  RsFW.floyd_warshall 2 [(0%nat, 1%nat, 5%Z); (1%nat, 0%nat, 2%Z)] false
+  = FW.Dist [[Some 0%Z; Some 2%Z]; [Some 2%Z; Some 0%Z]].
+Proof. vm_compute. split; reflexivity. Qed.
+
+Example C12_fw_unbounded_example :
+  FW.valid_input 3 [(0%nat, 1%nat, 1%Z); (1%nat, 2%nat, (-1)%Z); (2%nat, 0%nat, (-1)%Z)] = true /\
+  RsFW.floyd_warshall 3 [(0%nat, 1%nat, 1%Z); (1%nat, 2%nat, (-1)%Z); (2%nat, 0%nat, (-1)%Z)] true = FW.Unbounded.
+Proof. vm_compute. split; reflexivity. Qed.
+
+Example C12_bf_example :
+  BF.valid_input 0 [(0%nat, 1%nat, 4%Z); (0%nat, 2%nat, 5%Z); (1%nat, 2%nat, (-3)%Z)] 3 (Some 2%nat) = true /\
+  RsBF.bellman_ford 0 [(0%nat, 1%nat, 4%Z); (0%nat, 2%nat, 5%Z); (1%nat, 2%nat, (-3)%Z)] 3 (Some 2%nat)
+  = BF.Path [0%nat; 1%nat; 2%nat] 1%Z.
+Proof. vm_compute. split; reflexivity. Qed.
+
+Local Open Scope nat_scope.
+(* the two back-ends give DIFFERENT valid orders here *)
+Example C12_topo_example :
+  evalidb 4 [(3, 1); (2, 1); (0, 2); (0, 3)] = true /\
+  RsScc.topo_edges 4 [(3, 1); (2, 1); (0, 2); (0, 3)] = Some (Some [0; 3; 2; 1]) /\
+  Scc.topo_edges 4 [(3, 1); (2, 1); (0, 2); (0, 3)] = Some (Some [0; 2; 3; 1]).
+Proof. vm_compute. repeat split; reflexivity. Qed.
+
+Example C12_topo_cycle_example :
+  RsScc.topo_edges 3 [(0, 1); (1, 2); (2, 0)] = Some None /\ Scc.topo_edges 3 [(0, 1); (1, 2); (2, 0)] = Some None.
+Proof. vm_compute. split; reflexivity. Qed.
+
+Example C12_kruskal_example :
+  kruskal_valid 3 [(1%nat, 0%nat, 2%Z); (2%nat, 0%nat, 1%Z); (2%nat, 0%nat, 3%Z)] = true /\
+  RsKruskal.kruskal 3 [(1%nat, 0%nat, 2%Z); (2%nat, 0%nat, 1%Z); (2%nat, 0%nat, 3%Z)] false
+  = Some (OPTIMAL, Some [(2%nat, 0%nat, 1%Z); (1%nat, 0%nat, 2%Z)], Some 3%Z).
+Proof. vm_compute. split; reflexivity. Qed.
+
+Example C12_bfs_example :
+  ES.valid_input 4 [(0, 2); (0, 1); (2, 3)] 0 None = true /\
+  RsSearch.bfs_edges 4 [(0, 2); (0, 1); (2, 3)] 0 None = Some (ES.Reach [0; 1; 2; 3]) /\
+  RsSearch.bfs_edges 4 [(0, 2); (0, 1); (2, 3)] 0 (Some 3) = PyEdges.bfs_edges 4 [(0, 2); (0, 1); (2, 3)] 0 (Some 3).
+Proof. vm_compute. repeat split; reflexivity. Qed.
